@@ -347,11 +347,14 @@ func enumSingle(s pbt.Src, thorough bool) SingleCase {
 
 // bigCodes: a long slice (hundreds to thousands of codes a*i+b mod alpha; alpha either small, so that values repeat
 // very often, or about half the length, so that the result is long as well).
-func bigCodes(s pbt.Src) []int {
-	n := []int{255, 256, 257, 1000, 1024, 1025, 2048, 3000}[s.Intn(8)]
+func bigCodes(s pbt.Src, sizes int) []int {
+	n := []int{255, 256, 257, 1000, 1024, 1025, 2048, 3000, 4096, 5000, 8192, 10000}[s.Intn(sizes)]
 	alpha := 2 + s.Intn(12)
 	if pbt.Bool(s) {
 		alpha = n/2 + s.Intn(7)
+		if n > 3000 {
+			alpha = 40 + s.Intn(25) // the references are quadratic in the number of distinct values
+		}
 	}
 	a, b := 1+s.Intn(9), s.Intn(9)
 	out := make([]int, n)
@@ -364,7 +367,7 @@ func bigCodes(s pbt.Src) []int {
 func genSingle(s pbt.Src, thorough bool) SingleCase {
 	c := SingleCase{Typ: s.Intn(nTyp), Fn: s.Intn(nFns)}
 	if s.Intn(14) == 0 {
-		c.A = bigCodes(s)
+		c.A = bigCodes(s, 12)
 		return c
 	}
 	lo, alpha := -s.Intn(5), 2+s.Intn(12)
@@ -532,7 +535,7 @@ func genTuple(s pbt.Src, thorough bool) TupleCase {
 	big := s.Intn(14) == 0
 	c.Args = pbt.Seq(s, 1, 5, func(s pbt.Src) []int {
 		if big && s.Intn(3) != 0 {
-			return bigCodes(s)
+			return bigCodes(s, 7)
 		}
 		a := pbt.Seq(s, 0, max, func(s pbt.Src) int { return lo + s.Intn(alpha) })
 		if a == nil {
